@@ -31,7 +31,9 @@ type val struct {
 	qk    bool // object: member keys written in double quotes (JSON style)
 }
 
-var scalarPool = []string{"a", "b", "1", "x y", "true", "null", "~", "a ", " a"}
+var scalarPool = []string{"a", "b", "1", "x y", "true", "null", "~", "a ", " a",
+	// spellings that differ from a YAML keyword in letter case only: other strings
+	"True", "tRuE", "FALSE", "false", "fALSE", "Null", "A"}
 var exprPool = []string{"${{ matrix.v }}", "${{ fromJSON(env.X) }}", "pre-${{ github.sha }}"}
 var objKeyPool = []string{"name", "m", "ver", "Name", "z"}
 var rowKeyPool = []string{"os", "ver", "arch", "OS", "node"}
@@ -75,6 +77,17 @@ func mutate(r *hx.Rng, v *val) *val {
 	case 0:
 		if r.Chance(1, 3) {
 			return &val{kind: 0, s: r.Pick(scalarPool)}
+		}
+		if r.Chance(1, 4) {
+			// the same text in another letter case: another value
+			sw := strings.ToUpper(v.s)
+			if sw == v.s {
+				sw = strings.ToLower(v.s)
+			}
+			if r.Chance(1, 2) && len(v.s) > 1 {
+				sw = strings.ToLower(v.s[:1]) + strings.ToUpper(v.s[1:2]) + v.s[2:]
+			}
+			return &val{kind: 0, s: sw}
 		}
 		return &val{kind: 0, s: v.s}
 	case 1:
